@@ -6,6 +6,8 @@ the two pieces of LIST's resumable range rewriting. Does not decide that list_li
 self-rewriting range emits exactly the lines in range for every history (partial claim)."""
 import re
 
+from rules import common
+
 from lib.mir import rvalue_operands, op_const
 
 MAXV = "<std::option::Option<u16> as lang::MaxValue<u16>>::max_value"
@@ -121,6 +123,16 @@ def rule_c(ctx, cr):
     rr = cr.need_fn("mach::listing::Listing::remove_range")
     ctx.check("RangeInclusive" in rr.local_ty(2), "C15.c", "remove_range/param-type", rr.span,
               "takes RangeInclusive<LineNumber>")
+    # the removal itself may be skipped only when the range holds no line at all
+    rm = rr.calls_matching(r"BTreeMap::<K, V, A>::remove$")
+    if ctx.check(bool(rm), "C15.c", "remove_range/removes", rr.span, "removes by key"):
+        other = []
+        for c in rm:
+            other += common.emptiness_conds(rr, c.bb)[1]
+        ctx.check(not other, "C15.c", "remove_range/removes-when-any", rm[0].span,
+                  "the removal is skipped only when no stored line falls in the range",
+                  "the removal stands under a size test other than `not empty` (%s): DELETE "
+                  "leaves lines of some ranges in place" % [str(c[1])[:90] for c in other])
     st = cr.need_adt("mach::runtime::State")
     lv = [v for v in st["variants"] if v["name"] == "Listing"]
     ctx.check(bool(lv) and "RangeInclusive" in lv[0]["fields"][0]["ty"], "C15.c",
